@@ -83,6 +83,19 @@ Theorem c19_record_never_split : forall c s r now cur d,
 Proof. exact write_record_whole. Qed.
 Print Assumptions c19_record_never_split.
 
+(* compression on, no compress phase failing: however the compress phases of earlier rotations overlap with
+   later rotations, a backup whose compress phase is over is no longer a plain file -- with
+   c19_no_loss_no_dup_in_order its chunk is then under F.gz, gzipped once, or was removed by clean-up. In
+   particular, once every post-rotation task has run, EVERY backup is gzip-compressed. *)
+Theorem c19_all_backups_compressed : forall c width fs0 rot0 now0 h,
+  c_delim c <> [] -> current_plain c fs0 ->
+  stamps_ok c width (init c fs0 rot0 now0) now0 h ->
+  c_compress c = true -> existsb is_gzip_fail h = false ->
+  let s := run c (init c fs0 rot0 now0) h in
+  forall F ph, In (F, ph) (s_posts s) -> (1 <= ph)%nat -> fs_get F (s_fs s) = None.
+Proof. exact all_backups_compressed. Qed.
+Print Assumptions c19_all_backups_compressed.
+
 (* a compression that fails -- before or after F.gz was created -- leaves the plain backup in place
    (c19_no_loss_no_dup_in_order already quantifies over histories with EGzipFail steps) *)
 Theorem c19_failed_compression_keeps_backup : forall c F junk fs x,
@@ -165,6 +178,19 @@ Proof.
   - repeat constructor.
   - vm_compute. repeat split; repeat constructor; simpl; intuition discriminate.
 Qed.
+
+(* two rotations whose compress phases both run after the second rotation, newest first *)
+Example c19_overlapping_compressions :
+  let c := mkcfg Daily access_log dash 0 true true 0 0 in
+  let s := run c (init c [] d20200105 d20200105)
+             [EWrite (mkrec 1 5) d20200105; EWrite (mkrec 2 7) d20200106; EWrite (mkrec 3 4) d20200107;
+              EGzip 1; EGzip 0] in
+  fs_get (access_log ++ dash ++ d20200105) (s_fs s) = None /\
+  fs_get (access_log ++ dash ++ d20200106) (s_fs s) = None /\
+  fs_get (access_log ++ dash ++ d20200105 ++ gzip_ext) (s_fs s) = Some ([mkrec 1 5], 1%nat) /\
+  fs_get (access_log ++ dash ++ d20200106 ++ gzip_ext) (s_fs s) = Some ([mkrec 2 7], 1%nat) /\
+  fs_get access_log (s_fs s) = Some ([mkrec 3 4], 0%nat).
+Proof. vm_compute. repeat split. Qed.
 
 Example c19_nonvacuous :
   let s := run ex_cfg (init ex_cfg [] d20200105 d20200105) ex_hist in
